@@ -100,7 +100,7 @@ FALSY = [0, '', None, 0.0, False, [], 0, '']
 RHS_FAMILY = {'str_bin': 'str', 'str_hex': 'str', 'str_oct': 'str', 'str_mix': 'str', 'str_uint': 'str',
               'bytes': 'bytes-like', 'bytearray': 'bytes-like', 'memoryview': 'bytes-like', 'array': 'bytes-like',
               'memoryview_cast': 'bytes-like', 'memoryview_strided': 'bytes-like', 'array_H': 'bytes-like',
-              'bytesio': 'file-like', 'filehandle': 'file-like',
+              'bytesio': 'file-like', 'filehandle': 'file-like', 'bytesio_used': 'file-like', 'bytesio_written': 'file-like',
               'list': 'iterable', 'tuple': 'iterable', 'gen': 'iterable', 'truthy': 'iterable', 'truthy_iter': 'iterable',
               'bitarray': 'bitarray', 'frozenbitarray': 'bitarray',
               # instances of subclasses of the promotable built-in types stand for their base value
@@ -437,7 +437,7 @@ def pick_route(rng, clsname, bits, lsb0, short_ok=False):
         c += ['token_uint']
     if L % 8 == 0:
         c += ['bytes_auto', 'bytearray_auto', 'memoryview_auto', 'array_auto', 'bytesio_auto', 'rhs:bytes_sub', 'rhs:bytearray_sub',
-              'rhs:memoryview_ro', 'rhs:memoryview_cast', 'rhs:array_H']
+              'rhs:memoryview_ro', 'rhs:memoryview_cast', 'rhs:array_H', 'rhs:bytesio_used', 'rhs:bytesio_written']
         if L >= 8:
             c += ['file_name', 'file_whole', 'file_off0', 'file_handle']
     if not lsb0:
@@ -576,7 +576,7 @@ def rhs_for(rng, bits):
         kinds += ['str_uint']
     if L % 8 == 0:
         kinds += ['bytes', 'bytes', 'bytearray', 'memoryview', 'memoryview_cast', 'memoryview_strided', 'array', 'array_H', 'bytesio',
-                  'bytes_sub', 'bytearray_sub', 'memoryview_ro']
+                  'bytes_sub', 'bytearray_sub', 'memoryview_ro', 'bytesio_used', 'bytesio_written']
         if L >= 8:
             kinds += ['filehandle']
     return [rng.choice(kinds), bits, rng.randrange(8)]
@@ -643,6 +643,8 @@ def build_rhs(rhs, made):
         return array.array('H', raw) if L % 16 == 0 else array.array('B', raw)
     if kind == 'bytesio':
         return io.BytesIO(to_raw(bits))
+    if kind in ('bytesio_used', 'bytesio_written'):
+        return util.build_operand(['BytesIO-used' if kind == 'bytesio_used' else 'BytesIO-written', bits])
     if kind == 'list':
         return [int(ch) for ch in bits]
     if kind == 'tuple':
